@@ -617,6 +617,9 @@ class Gen(object):
                 elif vk < 0.74:
                     v = r.choice([0, 1, 7, 255, 65536, -1, 2 ** 31, 2 ** 32, 2 ** 63 - 1, -(2 ** 63)])
                     f = Field(name, "virtual", expr=num(v))
+                    if self.p["allow_requires"] and r.random() < 0.3:
+                        # a constant may pass or fail its own [requires]
+                        f.requires = op(r.choice(["<", ">=", "!=", "=="]), ref("this"), num(r.choice([0, 5, 100, v])))
                 else:
                     self.wide_now = self.wide_module and r.random() < 0.6
                     e, lo, hi = self.int_expr(srcs)
